@@ -413,6 +413,20 @@ func (fv *FV) siteAsserts(st *State, callee string, after bool, res []Term, pos 
 			env.vars["callresult1"] = res[1]
 		}
 		g := env.Eval(a.Clause.E)
+		if len(errs) > 0 {
+			// an assert that names a local which does not exist on this path (another branch's loop
+			// variable) is not about this path; if the local is gone from the function altogether the
+			// obligation disappears and the ledger reports it as undecided
+			unknown := false
+			for _, e := range errs {
+				if strings.HasPrefix(e, "unknown name") {
+					unknown = true // the errors after it are its consequences
+				}
+			}
+			if unknown {
+				continue
+			}
+		}
 		fv.oblige(st, "assert", clauseName(a.Clause, i), pos, g, a.Clause.Text)
 		fv.reportErrs(errs)
 	}
